@@ -12,7 +12,7 @@ import sys, json
 for l in sys.stdin:
     try: r = json.loads(l)
     except Exception: continue
-    print(r['seeded'], 'applies' if r.get('applies') else 'NOAPPLY', 'CAUGHT' if r.get('caught') else 'MISSED rc=%s' % r.get('check_rc'), r.get('check_wall'))
+    print(r['seeded'], 'applies' if r.get('applies') else 'NOAPPLY', 'OBSOLETE' if r.get('obsolete') else ('CAUGHT' if r.get('caught') else 'MISSED rc=%s' % r.get('check_rc')), r.get('check_wall'))
 "
     done
   done
